@@ -380,6 +380,21 @@ func checkGraphs(c graphCase) (fl *harness.Failure, nontrivial bool) {
 					a.Pointer(), b.Pointer(), sab.ParentsSimilarity, sab.IndividualSimilarity, sab.SpousesSimilarity, sab.ChildrenSimilarity, sab.WeightedSimilarity(),
 					sba.ParentsSimilarity, sba.IndividualSimilarity, sba.SpousesSimilarity, sba.ChildrenSimilarity, sba.WeightedSimilarity()), false
 			}
+			// the mode that Compare and the merge functions use (the calculation may stop early when the
+			// individual score alone rules a match out): bounded and independent of operand order as well
+			fab, fba := a.SurroundingSimilarity(b, o, false), b.SurroundingSimilarity(a, o, false)
+			for _, x := range []float64{fab.ParentsSimilarity, fab.IndividualSimilarity, fab.SpousesSimilarity, fab.ChildrenSimilarity, fab.WeightedSimilarity()} {
+				if bad(x) && !(x > 1 && x < 1+1e-12) {
+					return harness.Failf("surrounding-out-of-range", "SurroundingSimilarity(%s,%s,false) has component %v (%+v)", a.Pointer(), b.Pointer(), x, *fab), false
+				}
+			}
+			if !close12(fab.ParentsSimilarity, fba.ParentsSimilarity) || !close12(fab.SpousesSimilarity, fba.SpousesSimilarity) ||
+				!close12(fab.ChildrenSimilarity, fba.ChildrenSimilarity) || !close12(fab.IndividualSimilarity, fba.IndividualSimilarity) ||
+				!close12(fab.WeightedSimilarity(), fba.WeightedSimilarity()) {
+				return harness.Failf("surrounding-asymmetric", "SurroundingSimilarity(%s,%s) without forceFullCalculation = {par %v ind %v spo %v chi %v} weighted %v, swapped {par %v ind %v spo %v chi %v} weighted %v",
+					a.Pointer(), b.Pointer(), fab.ParentsSimilarity, fab.IndividualSimilarity, fab.SpousesSimilarity, fab.ChildrenSimilarity, fab.WeightedSimilarity(),
+					fba.ParentsSimilarity, fba.IndividualSimilarity, fba.SpousesSimilarity, fba.ChildrenSimilarity, fba.WeightedSimilarity()), false
+			}
 			if len(a.Parents()) == 0 && len(b.Parents()) == 0 && sab.ParentsSimilarity != 0.5 {
 				return harness.Failf("parents-missing-neutral", "neither %s nor %s has parents but ParentsSimilarity=%v", a.Pointer(), b.Pointer(), sab.ParentsSimilarity), false
 			}
@@ -444,7 +459,7 @@ func checkGraphs(c graphCase) (fl *harness.Failure, nontrivial bool) {
 
 func TestCheckGraphs(t *testing.T) {
 	s := harness.NewSub("graph-pairs-random",
-		"pairs of random family graphs (<= 6 people, <= 4 families each; names from a pool of similar spellings, 0..3 names, missing/duplicate events, dates within a decade incl. keyworded, ranges and unparsable; right side independent or an edited copy of the left) x default or random options (four weights summing to 1, ratio/boost in [0,1], prefix <= 10, MaxYears > 0): every individual x individual, the two lists, every family x family, surrounding similarity; non-trivial = some individual score strictly between 0 and 1")
+		"pairs of random family graphs (<= 6 people, <= 4 families each; names from a pool of similar spellings, 0..3 names, missing/duplicate events, dates within a decade incl. keyworded, ranges and unparsable; right side independent or an edited copy of the left) x default or random options (four weights summing to 1, ratio/boost in [0,1], prefix <= 10, MaxYears > 0): every individual x individual, the two lists, every family x family, surrounding similarity with and without forceFullCalculation; non-trivial = some individual score strictly between 0 and 1")
 	s.Rapid(t, harness.Share(harness.Pick(6000, 250000)), 122, func(rt *rapid.T) {
 		base := rapid.SampledFrom([]int{1850, 1900, 1990}).Draw(rt, "base")
 		o := gen.GraphOpts{MaxPeople: 6, MaxFamilies: 4, YearLo: base, YearHi: base + rapid.SampledFrom([]int{2, 10, 80}).Draw(rt, "span"), WildDates: true, UIDs: true, Big: 80, BigLo: 20, BigHi: 40}
@@ -471,8 +486,12 @@ func TestCheckGraphs(t *testing.T) {
 		if c.Opts.UseDefaults {
 			cls = "default-options"
 		}
+		isBig := c.Left.IsBig() || c.Right.IsBig()
+		if isBig {
+			s.Class("big:>=20-people", 1)
+		}
 		s.Eval(harness.JSON(c), nt, cls)
-		if nt {
+		if nt && !isBig {
 			s.MaybeSample(c)
 		}
 		if fl != nil && s.Report(c, fl) {
